@@ -38,7 +38,8 @@ KaInt(neg) == neg \div 3
    peer kinds: lo (remote id lower), hi (higher), eqlo (same id, remote AS lower), eqhi. *)
 Survivor(peer) == IF peer \in {"lo", "eqlo"} THEN CO ELSE CI
 
-(* RFC 8203 / 9003: Data = one length octet + UTF-8 communication (fixed vocabulary of the harness) *)
+(* RFC 8203 / 9003: Data = one length octet + UTF-8 communication (fixed vocabulary of the harness).
+   Sending the communication is a MAY: an empty Data field is accepted, any other content is not. *)
 CommHex(comm) == CASE comm = "" -> ""
                    [] comm = "hi" -> "026869"
                    [] comm = "bye" -> "03627965"
@@ -147,10 +148,25 @@ ConnOK(oc, r, now, datas) ==
 
 Untouched(h, o, c) == Quiet(o[c]) /\ (h[c].live => ~o[c].closed)
 
+(* RFC 4271 6.8: "MAY also examine connections in an OpenSent state if it knows the BGP Identifier
+   of the peer": a valid OPEN on c while the other connection d is still in OpenSent may be answered
+   by resolving the collision at once (the connection not initiated by the higher identifier is closed
+   with a Cease; if c survives it gets its KEEPALIVE) *)
+EarlyResolution(h, e, o) ==
+  LET c == CId(e)
+      d == Other(c)
+      keep == Survivor(h.cfg.peer)
+      lose == Other(keep)
+      cease == [cls |-> "General", allow |-> {<<6, 7>>, <<6, 0>>}, req |-> TRUE, close |-> TRUE, ka |-> 0]
+  IN /\ e.ev = "Open" /\ e.kind = "ok" /\ h[c].cs = "OpenSent" /\ h[d].live /\ h[d].cs = "OpenSent"
+     /\ ConnOK(o[lose], cease, h.now, {""})
+     /\ ConnOK(o[keep], Rx("General", {}, FALSE, FALSE, IF keep = c THEN 1 ELSE 0), h.now, {""})
+
 MsgStepOK(h, e, o) ==
   LET c == CId(e) IN
-  /\ ConnOK(o[c], React(h, e), h.now, {""})
-  /\ Untouched(h, o, Other(c))
+  \/ /\ ConnOK(o[c], React(h, e), h.now, {""})
+     /\ Untouched(h, o, Other(c))
+  \/ EarlyResolution(h, e, o)
 
 (* a NOTIFICATION in a step in which the RFCs prescribe none (e.g. a Cease left over from an
    administrative operation issued while the session was not established) *)
@@ -174,7 +190,7 @@ Early(h) == {c \in ConnIds : h[c].live /\ h[c].cs \in {"OpenSent", "OpenConfirm"
 StopOK(h, o, sub, data) ==      \* every connection past Active gets the Cease and is closed
   \A c \in ConnIds :
     IF h[c].live /\ h[c].cs # "None"
-    THEN ConnOK(o[c], Err("General", CeaseOr9(h, h[c].cs, sub)), h.now, {data})
+    THEN ConnOK(o[c], Err("General", CeaseOr9(h, h[c].cs, sub)), h.now, {data, ""})
     ELSE Quiet(o[c])
 
 (* ShutdownPeer / ResetPeer are one-shot session operations: an established session must be
@@ -183,10 +199,10 @@ StopOK(h, o, sub, data) ==      \* every connection past Active gets the Cease a
 OneShotOK(h, o, sub, data) ==
   \A c \in ConnIds :
     IF h[c].live /\ h[c].cs = "Established"
-    THEN ConnOK(o[c], Err("General", CeaseOr9(h, h[c].cs, sub)), h.now, {data})
+    THEN ConnOK(o[c], Err("General", CeaseOr9(h, h[c].cs, sub)), h.now, {data, ""})
     ELSE IF h[c].live /\ h[c].cs # "None"
     THEN \/ Untouched(h, o, c)
-         \/ ConnOK(o[c], Err("General", {<<6, sub>>}), h.now, {data})
+         \/ ConnOK(o[c], Err("General", {<<6, sub>>}), h.now, {data, ""})
     ELSE Quiet(o[c])
 
 AdminStepOK(h, e, o) ==
@@ -318,8 +334,12 @@ HNext(h, e, o) ==
         !.admin = IF susp2 THEN o.admin ELSE ExpAdmin(h, e),
         !.rib = <<o.ribg, o.riba>>,
         !.susp = susp2,
+        \* hold time negotiated by the last session that was reported Established (even for an instant)
         !.prevNeg = IF e.ev = "Disable" THEN 0
-                    ELSE IF estNow # {} THEN h1[CHOOSE c \in estNow : TRUE].neg ELSE h.prevNeg,
+                    ELSE IF estNow # {} THEN h1[CHOOSE c \in estNow : TRUE].neg
+                    ELSE IF (\E i \in 1..Len(o.wev) : o.wev[i].st = "Established") /\ e.ev \in MsgEvents
+                            /\ h[CId(e)].cs = "OpenConfirm" THEN h[CId(e)].neg
+                    ELSE h.prevNeg,
         \* an administrative Cease requested while no session is established (one slot, first wins)
         !.parked = IF oneshot /\ h.parked = <<>> /\ h.st # "None"
                    THEN <<IF e.ev = "Shutdown" THEN 2 ELSE 4, CommHex(e.comm)>>
@@ -341,12 +361,13 @@ NotifOK(h, e, o) ==
   IF e.ev \in MsgEvents \ {"Close"} THEN (h[CId(e)].live => MsgStepOK(h, e, o))
   ELSE IF e.ev = "Close" THEN \A c \in ConnIds : Quiet(o[c])
   ELSE IF e.ev \in AdminEvents THEN AdminStepOK(h, e, o)
+  ELSE IF e.ev = "Noop" THEN Len(o.wev) = 0 /\ \A c \in ConnIds : Untouched(h, o, c)
   ELSE TRUE
 
 StepClass(h, e, o) == IF e.ev \in AdminEvents THEN AdminClass(h, e) ELSE ClassOf(h, e, o)
 
 P_Notification(h, e, o) ==
-  (e.ev \in MsgEvents \cup AdminEvents /\ StepClass(h, e, o) \in {"General", "NA"}) => NotifOK(h, e, o)
+  (e.ev \in MsgEvents \cup AdminEvents \cup {"Noop"} /\ StepClass(h, e, o) \in {"General", "NA"}) => NotifOK(h, e, o)
 P_NotifClass(cls, h, e, o) == StepClass(h, e, o) = cls => NotifOK(h, e, o)
 
 (* RFC 8538: no Hard Reset unless the N bit was exchanged; 8203/9003 data only with Cease 2/4 *)
